@@ -6,6 +6,7 @@ import (
 	"math"
 	"math/rand"
 	"sync"
+	"sync/atomic"
 	"time"
 
 	"github.com/Query-farm/vgi-rpc-go/vgirpc"
@@ -47,6 +48,8 @@ type c39In struct {
 	Str      []byte    `json:"str,omitempty"`
 	Cap      int       `json:"cap,omitempty"`
 	Steps    []c39Step `json:"steps,omitempty"`
+	Workers  int       `json:"workers,omitempty"` // storm: goroutines enqueueing at once
+	Per      int       `json:"per,omitempty"`     // storm: records per goroutine
 }
 
 // ---------------------------------------------------------------- generators
@@ -254,6 +257,12 @@ func c39Gen(r *rand.Rand, n int, tier string) []c39In {
 		// close while records are queued: drained before exit
 		c39In{Kind: "async", Cap: 4, Steps: c39Ops("enq", "enq", "enq", "enq", "enq", "enq", "enq", "close", "close")},
 	)
+	// concurrent enqueuers against a full queue and a held writer: every interleaving of the enqueue
+	// critical sections gives the same ledger (the storm's records are indistinguishable), so a lost
+	// update of the drop counter shows as a wrong dropped_records on the flush record
+	for _, st := range [][3]int{{1, 8, 2500}, {2, 4, 4000}, {3, 16, 1000}} {
+		out = append(out, c39In{Kind: "storm", Cap: st[0], Workers: st[1], Per: st[2]})
+	}
 	five := int64(5)
 	out = append(out, c39In{Kind: "async", Cap: 1, Steps: []c39Step{{Op: "enq"}, {Op: "enq", Pre: &five}, {Op: "enq", Pre: &five}, {Op: "done"}, {Op: "take"}, {Op: "enq", Pre: &five}}})
 	// ---- generated
@@ -463,9 +472,9 @@ func c39RunAsync(in c39In) CaseOut {
 	}
 
 	// real writer sub-state as seen through the write function's events
-	waiting := true   // in the channel receive, nothing taken yet / went back with an empty buffer
+	waiting := true     // in the channel receive, nothing taken yet / went back with an empty buffer
 	var inWrite *uint64 // entered write, not committed
-	held := false     // committed, not yet returned to the loop
+	held := false       // committed, not yet returned to the loop
 	closeCalled := false
 	closeRet := make(chan struct{})
 	stuck := ""
@@ -750,7 +759,125 @@ func c39Run(in c39In) CaseOut {
 	case "sample":
 		return c39RunSample(in)
 	}
+	if in.Kind == "storm" {
+		return c39RunStorm(in)
+	}
 	return c39RunAsync(in)
+}
+
+// c39RunStorm: one record is taken by the writer, which is then held inside write; Workers goroutines enqueue
+// Per records each (all with id 1) at the same time: Cap of them fit, the others are dropped; the writer is
+// released and drains; a flush record (id 2) is enqueued and written; close. In model terms this is the
+// Async schedule Enq 0; Take; (Enq 1)^n; WriteDone; (Take; WriteDone)^cap; Enq 2; Take; WriteDone; Close; Take
+// for EVERY interleaving of the concurrent enqueues, because each enqueue is one atomic step and the storm's
+// records are indistinguishable.
+func c39RunStorm(in c39In) CaseOut {
+	n := in.Workers * in.Per
+	var mu sync.Mutex
+	var written []c39Q
+	entered := make(chan struct{}, 1)
+	gate := make(chan struct{})
+	first := true
+	write := func(rec map[string]any) {
+		if first {
+			first = false
+			entered <- struct{}{}
+		}
+		<-gate
+		mu.Lock()
+		written = append(written, c39Snap(rec))
+		mu.Unlock()
+	}
+	nWritten := func() int { mu.Lock(); defer mu.Unlock(); return len(written) }
+	waitFor := func(cond func() bool) bool {
+		deadline := time.Now().Add(10 * time.Second)
+		for !cond() {
+			if time.Now().After(deadline) {
+				return false
+			}
+			time.Sleep(100 * time.Microsecond)
+		}
+		return true
+	}
+	tags := []string{"async", "storm", fmt.Sprintf("storm-%dx%d-cap%d", in.Workers, in.Per, in.Cap)}
+	em, err := vgirpc.VerifNewAsyncEmitter(in.Cap, write)
+	if err != nil {
+		panic(err)
+	}
+	stuck := ""
+	em.Enqueue(map[string]any{"id": uint64(0)})
+	select {
+	case <-entered:
+	case <-time.After(10 * time.Second):
+		stuck = "writer-did-not-take"
+	}
+	returned := int64(0)
+	var wg sync.WaitGroup
+	start := make(chan struct{})
+	for w := 0; w < in.Workers; w++ {
+		wg.Add(1)
+		go func() {
+			defer wg.Done()
+			<-start
+			for i := 0; i < in.Per; i++ {
+				em.Enqueue(map[string]any{"id": uint64(1)})
+				atomic.AddInt64(&returned, 1)
+			}
+		}()
+	}
+	close(start)
+	done := make(chan struct{})
+	go func() { wg.Wait(); close(done) }()
+	select {
+	case <-done:
+	case <-time.After(20 * time.Second):
+		stuck = "enqueue-blocked"
+	}
+	close(gate)
+	if stuck == "" && !waitFor(func() bool { return nWritten() >= 1+in.Cap && em.QueueLen() == 0 }) {
+		stuck = "writer-did-not-drain"
+	}
+	if stuck == "" {
+		em.Enqueue(map[string]any{"id": uint64(2)})
+		if !waitFor(func() bool { return nWritten() >= 2+in.Cap }) {
+			stuck = "flush-not-written"
+		}
+	}
+	closeRet := make(chan struct{})
+	go func() { em.Close(); close(closeRet) }()
+	select {
+	case <-closeRet:
+	case <-time.After(10 * time.Second):
+		stuck = "close-blocked"
+	}
+	exited := waitFor(em.Exited)
+	pending, _ := em.State()
+	mu.Lock()
+	w := append([]c39Q(nil), written...)
+	mu.Unlock()
+	rets := fmt.Sprintf("(List.repeat true (N.to_nat %s))", N(uint64(atomic.LoadInt64(&returned))+2))
+	if stuck != "" {
+		tags = append(tags, "stuck-"+stuck)
+		rets = "[false]"
+	}
+	step := func(op string) string { return Pair(op, "false") }
+	enq := func(id uint64) string { return step(App("C39.Enq", App("C39.Build_arec", N(id), "None"))) }
+	steps := "(" + List([]string{enq(0), step("C39.Take")}) +
+		fmt.Sprintf(" ++ List.repeat %s (N.to_nat %s) ++ ", enq(1), N(uint64(n))) +
+		List([]string{step("C39.WriteDone")}) +
+		fmt.Sprintf(" ++ List.concat (List.repeat %s (N.to_nat %s)) ++ ", List([]string{step("C39.Take"), step("C39.WriteDone")}), N(uint64(in.Cap))) +
+		List([]string{enq(2), step("C39.Take"), step("C39.WriteDone"), step("C39.Close"), step("C39.Take")}) + ")"
+	coqIn := App("C39.Async", Z(int64(in.Cap)), steps)
+	coqObs := App("C39.OAsync", rets, "[]", ListOf(w, c39Q.coq), N(uint64(pending)), Bool(exited))
+	sum := int64(0)
+	for _, q := range w {
+		if q.Stamp != nil {
+			sum += *q.Stamp
+		}
+	}
+	return CaseOut{Coq: Pair(coqIn, coqObs), Tags: tags, Nontrivial: true,
+		Obs: map[string]any{"cap": in.Cap, "enqueued_before_close": n + 2, "written": len(w), "sum_dropped_records": sum,
+			"pending_drops": pending, "vanished": int64(n+2) - int64(len(w)) - sum - pending, "exited": exited, "stuck": stuck}}
 }
 
 func init() {
